@@ -62,6 +62,8 @@ pub struct Trial {
     pub id: u64,
     pub conns: Vec<ConnPlan>,
     pub receivers: Vec<RecvScript>,
+    /// unblock() calls issued at seeded moments while requests are flowing
+    pub unblocks_us: Vec<u64>,
 }
 
 #[derive(Clone, Debug)]
@@ -128,7 +130,7 @@ fn gen_trial(rng: &mut Rng, id: u64) -> Trial {
                 c
             })
             .collect();
-        return Trial { id, conns, receivers };
+        return Trial { id, conns, receivers, unblocks_us: Vec::new() };
     }
     // receiver 0 never leaves: whatever is queued must reach it
     receivers.push(RecvScript { ops: vec![if rng.chance(1, 2) { Op::Recv } else { Op::IterNext }], leave: Leave::Loop, after_get: AfterGet::Continue });
@@ -150,7 +152,17 @@ fn gen_trial(rng: &mut Rng, id: u64) -> Trial {
         };
         receivers.push(RecvScript { ops, leave, after_get: AfterGet::Continue });
     }
-    Trial { id, conns, receivers }
+    // a fifth of the trials: the application only polls (try_recv / timed receives in a loop), and
+    // unblock() is called now and then; every request must still come out
+    if rng.chance(1, 5) {
+        receivers.clear();
+        for _ in 0..rng.range(1, 3) {
+            let ops = (0..rng.range(1, 2)).map(|_| if rng.chance(2, 3) { Op::TryRecv } else { Op::RecvTimeout(*rng.pick(&[0u64, 300, 2000])) }).collect();
+            receivers.push(RecvScript { ops, leave: Leave::Loop, after_get: AfterGet::Continue });
+        }
+    }
+    let unblocks_us = if rng.chance(1, 3) { (0..rng.range(1, 4)).map(|_| rng.range(0, 20000) as u64).collect() } else { Vec::new() };
+    Trial { id, conns, receivers, unblocks_us }
 }
 
 fn parse_url(url: &str) -> Option<(u64, usize, usize)> {
@@ -365,6 +377,16 @@ pub fn run_trial(ctx: &Ctx, env: &Env, trial: &Trial, case_seed: u64, mode: &str
         let id = trial.id;
         ch.push(spawn_named(&format!("cl{}", i), move || client_thread(addr, id, i, p, sh)));
     }
+    let unb = {
+        let (server, sh, times) = (server.clone(), sh.clone(), trial.unblocks_us.clone());
+        spawn_named("unb", move || {
+            for t in times {
+                sleep_us(t);
+                sh.ev_pub("unb", "unblock()".into());
+                server.unblock();
+            }
+        })
+    };
     let total: usize = trial.conns.iter().map(|c| c.m).sum();
     // monitor: progress = deliveries; distinct snapshot states are evidence
     let mut states: std::collections::HashSet<(usize, usize, usize)> = std::collections::HashSet::new();
@@ -456,6 +478,7 @@ pub fn run_trial(ctx: &Ctx, env: &Env, trial: &Trial, case_seed: u64, mode: &str
     for h in ch {
         answered += h.join().unwrap_or(0);
     }
+    let _ = unb.join();
     if !wind_down(&server, &sh, rh) {
         inconclusive = Some("receivers did not wind down".into());
     }
